@@ -346,6 +346,8 @@ impl WorkerStats {
 
     fn queued(&self) -> u64 {
         let submitted = self.submitted.load(Ordering::Acquire);
+        #[cfg(cadence_verif)]
+        crate::verif::point("queue.queued.between");
         let drained = self.drained.load(Ordering::Acquire);
 
         if submitted > drained {
@@ -399,6 +401,8 @@ impl<'a> Drop for Sentinel<'a> {
             // that this was a panic and spawn a new thread with an Arc of
             // the worker.
             self.worker.stats.incr_panic();
+            #[cfg(cadence_verif)]
+            crate::verif::point("queue.sentinel.respawn");
             spawn_worker_in_thread(self.worker.clone());
         }
     }
@@ -458,6 +462,8 @@ impl Worker {
 
     fn submit(&self, v: String) -> Result<(), TrySendError<Option<String>>> {
         let res = self.sender.try_send(Some(v));
+        #[cfg(cadence_verif)]
+        crate::verif::point("queue.submit.sent");
         if res.is_ok() {
             self.stats.incr_submitted();
         }
@@ -466,10 +472,18 @@ impl Worker {
     }
 
     fn run(&self) {
+        #[cfg(cadence_verif)]
+        crate::verif::point("queue.run.start");
         for opt in self.receiver.iter() {
+            #[cfg(cadence_verif)]
+            crate::verif::point("queue.run.dequeued");
             if let Some(v) = opt {
                 self.stats.incr_drained();
+                #[cfg(cadence_verif)]
+                crate::verif::point("queue.run.counted");
                 (self.task)(v);
+                #[cfg(cadence_verif)]
+                crate::verif::point("queue.run.finished");
             } else {
                 break;
             }
@@ -479,6 +493,8 @@ impl Worker {
         // method will see that we've stopped processing entries in the channel.
         // This is only for the benefit of unit testing.
         self.stopped.store(true, Ordering::Release);
+        #[cfg(cadence_verif)]
+        crate::verif::point("queue.run.exit");
     }
 
     fn stop(&self) {
